@@ -24,6 +24,7 @@ import (
 	"math/rand/v2"
 	"sort"
 	"strings"
+	"time"
 
 	"verifharness/internal/batch"
 	"verifharness/internal/gen"
@@ -503,6 +504,9 @@ func describe(u updSpec) string { return u.Describe() }
 
 func main() {
 	if batch.IsChild() {
+		// no FSM ever ceases in this workload, so a barrier that is late on a closed connection is a stalled
+		// machine, not an ended FSM: wait for it
+		speaker.CeaseGrace = 5 * time.Second
 		batch.ChildMain(runCase)
 		return
 	}
